@@ -59,7 +59,7 @@ def event_strategy():
     pub = public_events()
     tbl = st.sampled_from(TABLES)
     t_read = st.tuples(st.sampled_from(["covalent_radius", "crystal_structure", "neutron", "neutron_activation", "xray",
-                                        "K_alpha", "magnetic_ff"]),
+                                        "K_alpha", "magnetic_ff", "mass", "density", "number_density", "abundance"]),
                        st.sampled_from(["el+", "iso", "ion", "iso2"]), tbl).map(lambda t: ["read", t[0], t[1], t[2]])
     t_calc = st.tuples(st.sampled_from(H.CALCS), tbl).map(lambda t: ["calc", t[0], t[1]])
     t_init = st.tuples(st.sampled_from(H.INIT_ENTRIES), tbl).map(lambda t: ["init", t[0], t[1]])
@@ -314,6 +314,11 @@ def family_mutate(full):
         out.append(fixup([["assign", p, route, "T1", val], ["create", "T2"]]))
         if full:
             out.append(fixup([["create", "T2"], ["init", "nsf.init", "T2"], ["assign", p, route, "T1", val]]))
+    # customised mass/density on T1, then T1 itself is read (primes any memo), then the others are observed
+    for p, val in (("_mass", 123.456), ("_density", 9.99)):
+        for r in ("iso", "el+", "isoion"):
+            out.append(fixup([["assign", p, "el+", "T1", val], ["read", "density", r, "T1"], ["read", "mass", r, "T1"],
+                              ["read", "number_density", "el+", "T1"], ["create", "T2"]]))
     for r in ("el+", "iso", "ion", "isoion", "D"):
         out.append(fixup([["pickle", r, "T1"], ["pickle", r, "T2"], ["pickle", r, "public"]]))
     for f in FORMULAS:
